@@ -503,6 +503,9 @@ PLANS['C16']['floor'] = need('debug_calls', 'quiescent_states_checked', 'truncat
 PLANS['C19']['floor'] = need('note_new_null', 'counter_new_null', 'rounds_without_failure', 'null_seen_by_concurrent_thread')
 
 
+THOROUGH_FACTOR = 8
+
+
 def expand(prop, tier, scale=1.0):
     spec = PLANS[prop]
     out = []
@@ -511,8 +514,9 @@ def expand(prop, tier, scale=1.0):
             continue
         g = copy.copy(g)
         if tier == 'thorough':
-            g['rounds'] = g['thorough_rounds']
-            g['timeout'] = g.get('timeout', 1500) * 4
+            # thorough = as deep as is practical: the per-group thorough size times THOROUGH_FACTOR (10-25 minutes per property on 16 cores)
+            g['rounds'] = g['thorough_rounds'] * (1 if g.get('no_scale') or g.get('valgrind') else THOROUGH_FACTOR)
+            g['timeout'] = g.get('timeout', 1500) * 8
         if not g.get('no_scale'):
             g['rounds'] = max(1, int(g['rounds'] * scale))
         out.append(g)
